@@ -221,10 +221,20 @@ func classOf(ev string) string {
 	if strings.HasPrefix(ev, "q4.") && writerEvs[ev[3:]] {
 		return "q4"
 	}
-	if strings.HasPrefix(ev, "ods.") || strings.HasPrefix(ev, "q4.") || strings.HasPrefix(ev, "get.") {
-		return "rd"
+	if mainEvs[ev] {
+		return "main"
 	}
-	return "main"
+	// reader-side markers (ods.open, q4.open, get.*), lock markers (mlock.*) and any marker added
+	// later for other properties: not part of the crash model
+	return "rd"
+}
+
+// markers of the operation's goroutine that correspond to actions of Store.tla
+var mainEvs = map[string]bool{
+	"put.cached": true, "put.locked": true, "put.end": true,
+	"removeodsq4.locked": true, "removeodsq4.end": true, "removeq4.locked": true, "removeq4.end": true,
+	"cache.removed": true, "fs.mkdir": true, "fs.link": true, "fs.link.err": true, "fs.symlink": true,
+	"fs.symlink.err": true, "fs.remove": true, "newstore.ready": true,
 }
 
 // target: hold a goroutine right after the marker that corresponds to the model action `Action` in
